@@ -372,12 +372,12 @@ def handle (st : DState) (line : String) : DState × String :=
     | none => (st, "BADREQ")
     | some t =>
       match parseProgram st.regs t with
-      | .ok a => (st, "OK\t" ++ hexT (describe st.regs st.dreg (markerInv st.markers) a))
+      | .ok a => (st, "OK\t" ++ hexT (describe st.dreg (markerInv st.markers) a))
       | r => (st, resTag r)
   | "DESCRAST" =>
     match (parseSexp (fld 1)).bind sexpAst with
     | none => (st, "BADREQ")
-    | some a => (st, "OK\t" ++ hexT (describe st.regs st.dreg (markerInv st.markers) a))
+    | some a => (st, "OK\t" ++ hexT (describe st.dreg (markerInv st.markers) a))
   | "DESC" =>
     let name := (text 2).getD []
     let tag := if f.length > 3 then fld 3 else fld 1
